@@ -308,6 +308,9 @@ class struct_generator(_composite_generator_base):
         sizer_item = next(field for field in cls._descriptor if field.name == sizer_name)
         bound_shift = container_item.type._BOUND_SHIFT
         cls.validate_sizer_type(sizer_item, container_item)
+        if bound_shift >= sizer_item.type._MAX:
+            msg = "shift of array {}.{} leaves its sizer no room to count elements"
+            raise ProphyError(msg.format(cls.__name__, container_item.name))
         cls.limit_to_sizer_range(container_item.type, sizer_item.type._MAX - bound_shift)
 
         if sizer_item.type.__name__ == "container_len":
